@@ -596,6 +596,9 @@ func (e *Exec) doRevert(op Op) {
 	e.closeAllHandlesIf(true)
 	e.closeColl()
 	e.settle()
+	// a revert that itself meets an I/O error is not judged: the faults of the
+	// plan that have not fired by now are dropped
+	e.fs.StopFaults()
 	H := e.history
 	d := op.N
 	if d > len(H)-1 {
